@@ -132,8 +132,14 @@ def run(prop_id, tier, seed, replay=None):
     if kinds:
         log(f'[{prop_id}] failure kinds: ' + '; '.join(f'{"+".join(k)} x{n}' for k, n in kinds.most_common(12)))
     mach = [(i, f) for i, f in bad.items() if any(c.startswith('MACHINERY_') for c in f)]
-    if mach:
+    if mach and len(mach) == len(bad):
         raise MachineryError(f'specification/harness inconsistency on records {mach[:5]}')
+    if mach:
+        # inputs are partly built with the library itself (hashes of cells used as stored hashes): when the library is broken
+        # such inputs can disagree with their labels.  Records that fail on their own merits are reported; the others are set aside.
+        log(f'[{prop_id}] {len(mach)} records set aside (input construction disagrees with its label): {mach[:3]}')
+        for i, _ in mach:
+            bad.pop(i)
     known = vlib.load_known(prop_id)
     by_id = {r['i']: r for r in flat}
     viol, kf = [], {}
